@@ -102,6 +102,17 @@ pub fn alpha_beta_search(
         let mut local_move_generator = MoveGenerator::new();
         let mut local_context = context.clone();
         let local_depth = context.search_depth();
+        #[cfg(feature = "verif")]
+        let verif_task_index = candidates
+            .iter()
+            .position(|candidate| std::ptr::eq(candidate, chess_move))
+            .unwrap_or(usize::MAX);
+        #[cfg(feature = "verif")]
+        if crate::verif::search_observed() {
+            crate::verif::search_event(crate::verif::SearchEvent::TaskBegin {
+                index: verif_task_index,
+            });
+        }
 
         chess_move.apply(&mut local_board).unwrap();
         local_board.toggle_turn();
@@ -122,6 +133,12 @@ pub fn alpha_beta_search(
         chess_move.undo(&mut local_board).unwrap();
         local_board.toggle_turn();
 
+        #[cfg(feature = "verif")]
+        if crate::verif::search_observed() {
+            crate::verif::search_event(crate::verif::SearchEvent::TaskEnd {
+                index: verif_task_index,
+            });
+        }
         (score, chess_move.clone())
     });
 
@@ -159,6 +176,18 @@ fn alpha_beta_minimax(
     maximizing_player: bool,
 ) -> Result<i16, SearchError> {
     let search_node = (board.current_position_hash(), alpha, beta);
+    #[cfg(feature = "verif")]
+    if crate::verif::search_observed() {
+        crate::verif::search_event(crate::verif::SearchEvent::NodeEnter {
+            hash: board.current_position_hash(),
+            depth,
+            alpha,
+            beta,
+            maximizing: maximizing_player,
+        });
+    }
+    #[cfg(feature = "verif")]
+    let _verif_node_guard = crate::verif::NodeGuard;
     if let Some(score) = check_cache(context, search_node) {
         trace!(
             "{}alpha_beta_minimax returning cached score: {} for depth: {}",
@@ -266,12 +295,41 @@ fn alpha_beta_minimax(
 }
 
 fn set_cache(context: &mut SearchContext, search_node: SearchNode, score: i16) {
+    #[cfg(feature = "verif")]
+    if crate::verif::search_observed() {
+        crate::verif::search_event(crate::verif::SearchEvent::BeforeCacheWrite {
+            key: crate::verif::key_digest(&search_node),
+            value: score,
+        });
+    }
     let mut cache = context.search_result_cache.write().unwrap();
     cache.insert(search_node, score);
+    #[cfg(feature = "verif")]
+    if crate::verif::search_observed() {
+        // still under the cache's write lock: the order of these events is the true order
+        crate::verif::search_event(crate::verif::SearchEvent::AfterCacheWrite {
+            key: crate::verif::key_digest(&search_node),
+            value: score,
+        });
+    }
 }
 
 fn check_cache(context: &mut SearchContext, search_node: SearchNode) -> Option<i16> {
+    #[cfg(feature = "verif")]
+    if crate::verif::search_observed() {
+        crate::verif::search_event(crate::verif::SearchEvent::BeforeCacheRead {
+            key: crate::verif::key_digest(&search_node),
+        });
+    }
     let cache = context.search_result_cache.read().unwrap();
+    #[cfg(feature = "verif")]
+    if crate::verif::search_observed() {
+        // under the cache's read lock
+        crate::verif::search_event(crate::verif::SearchEvent::AfterCacheRead {
+            key: crate::verif::key_digest(&search_node),
+            hit: cache.get(&search_node).copied(),
+        });
+    }
     match cache.get(&search_node) {
         Some(&prev_best_score) => {
             let mut count = context.cache_hit_count.write().unwrap();
